@@ -38,7 +38,8 @@ META = {
 NONE = 99
 OPS = ["reshape", "transpose", "moveaxis", "swapaxes", "squeeze", "expand_dims", "flip", "rot90", "roll", "take", "shuffle",
        "repeat", "tile", "broadcast_to", "tri", "diff", "pad", "concatenate", "stack", "block"]
-INVS = ["CellCount", "OnlyInputCells", "Bijective", "JoinKeepsAll", "PadKeepsCore", "ChunkingsValid"]
+INVS = ["CellCount", "OnlyInputCells", "Bijective", "JoinKeepsAll", "PadKeepsCore", "ChunkingsValid", "RelStructure",
+        "RelNotIdentity"]
 
 
 # --------------------------------------------------------------------------- inputs
@@ -243,7 +244,15 @@ def make_runs(case, chunkings, rng, n, all_chunkings):
     shapes = input_shapes(case)
     lists = [chunkings[tuple(s)] for s in shapes]
     runs = []
-    if all_chunkings and len(shapes) == 1 and len(lists[0]) <= all_chunkings:
+    if "achunks" in case:
+        # chunk-relative indexer: the input's axis must be chunked exactly like achunks (other axes: any)
+        ax = case["ax"] % len(shapes[0])
+        want = list(case["achunks"])
+        fits = [c for c in lists[0] if list(c[ax]) == want]
+        if not fits:
+            fits = [[want if d == ax else list(c[d]) for d in range(len(c))] for c in rng.sample(lists[0], min(3, len(lists[0])))]
+        combos = [[c] for c in (fits if all_chunkings else rng.sample(fits, min(len(fits), n)))]
+    elif all_chunkings and len(shapes) == 1 and len(lists[0]) <= all_chunkings:
         combos = [[c] for c in lists[0]]
     else:
         combos = [[rng.choice(l) for l in lists] for _ in range(n)]
@@ -392,8 +401,48 @@ def random_runs(ctx, n):
         kinds = ["da"] + [ctx.rng.choice(["da", "np"]) for _ in shapes[1:]]
         run = {"chunks": [[_rand_chunking(ctx.rng, s) for s in sh] for sh in shapes], "kinds": kinds,
                "v": {"alt": ctx.rng.randrange(6), "merge": ctx.rng.random() < 0.6}}
+        if case["op"] in ("shuffle", "take") and ctx.rng.random() < 0.5:
+            near_identity(ctx.rng, case, run)
         items.append(("r%d" % i, case, run))
     return items
+
+
+def near_identity(rng, case, run):
+    """Replace the indexer of a shuffle / take case by one that is nearly the identity grouping of the chunks the
+    input actually has along the axis (same group lengths, same first and last position of every group; interior
+    positions exchanged inside a group, repeated, or exchanged between groups) - the inputs next to the
+    'already shuffled the way we want' shortcut.  For take, the axis is re-chunked regularly with probability 1/2,
+    since take regroups its index by the average chunk size."""
+    ax = case["ax"] % len(case["shape"])
+    n = case["shape"][ax]
+    ch = [c for c in run["chunks"][0][ax] if c > 0] or [n]
+    if case["op"] == "take" and rng.random() < 0.5 and n >= 3:
+        k = rng.choice([d for d in range(1, n + 1) if n % d == 0 and d >= min(3, n)])
+        ch = [k] * (n // k)
+    run["chunks"][0][ax] = ch
+    groups, o = [], 0
+    for c in ch:
+        groups.append(list(range(o, o + c)))
+        o += c
+    big = [g for g in groups if len(g) >= 3]
+    kind = rng.choice(["swap", "dup", "cross", "identity", "swap"])
+    if kind == "swap" and any(len(g) >= 4 for g in groups):
+        g = rng.choice([g for g in groups if len(g) >= 4])
+        i, j = rng.sample(range(1, len(g) - 1), 2)
+        g[i], g[j] = g[j], g[i]
+    elif kind in ("dup", "swap") and big:
+        g = rng.choice(big)
+        i = rng.randrange(1, len(g) - 1)
+        g[i] = g[i - 1] if rng.random() < 0.5 else g[i + 1]
+    elif kind == "cross" and len(big) >= 2:
+        g, h = rng.sample(big, 2)
+        i, j = rng.randrange(1, len(g) - 1), rng.randrange(1, len(h) - 1)
+        g[i], h[j] = h[j], g[i]
+    if case["op"] == "shuffle":
+        case["groups"] = groups
+    else:
+        case["idx"] = [i for g in groups for i in g]
+        case["ax"] = ax
 
 
 def _record(item):
@@ -425,9 +474,10 @@ def validate(ctx, recs, label, report=True):
     return out
 
 
-def enumerate_cases(ctx, ops, shapes, max_chunk_nd, label):
+def enumerate_cases(ctx, ops, shapes, max_chunk_nd, label, wide="{}"):
     spec, cfg = ctx.model(ctx.spec("array", "StructuralMC.tla"),
-                          {"Ops": set(ops), "Shapes": TLA(shapes), "MaxChunkNd": max_chunk_nd}, invariants=INVS)
+                          {"Ops": set(ops), "Shapes": TLA(shapes), "WideShapes": TLA(wide), "MaxChunkNd": max_chunk_nd},
+                          invariants=INVS)
     cases, _ = ctx.tlc_cases(spec, cfg, label="design+cases:" + label, timeout=2400)
     chunkings = {tuple(c["c"]["shape"]): c["e"]["all"] for c in cases if c["c"]["op"] == "chunkings"}
     return [c for c in cases if c["c"]["op"] != "chunkings"], chunkings
@@ -437,12 +487,15 @@ def run(ctx):
     shapes = ctx.pick("{<<0>>, <<1>>, <<3>>, <<4>>, <<1, 3>>, <<2, 3>>, <<3, 1>>, <<4, 4>>, <<0, 2>>, <<2, 1, 3>>, <<2, 3, 2>>}",
                       "{<<0>>, <<1>>, <<2>>, <<3>>, <<4>>, <<1, 3>>, <<2, 3>>, <<3, 1>>, <<3, 4>>, <<4, 4>>, <<0, 2>>, <<1, 1>>, "
                       "<<2, 1, 3>>, <<2, 3, 2>>, <<1, 4, 1>>, <<3, 2, 4>>, <<0, 2, 2>>}")
-    cases, chunkings = enumerate_cases(ctx, OPS, shapes, ctx.pick(2, 3), "structural")
+    cases, chunkings = enumerate_cases(ctx, OPS, shapes, ctx.pick(2, 3), "structural",
+                                       wide=ctx.pick("{<<6>>, <<2, 5>>}", "{<<5>>, <<6>>, <<7>>, <<2, 5>>, <<6, 2>>}"))
     total = len(cases)
     cap = ctx.pick(9000, 10 ** 9)
     sampled = len(cases) > cap
     if sampled:
-        cases = ctx.rng.sample(cases, cap)
+        rel = [c for c in cases if "achunks" in c["c"]]
+        rest = [c for c in cases if "achunks" not in c["c"]]
+        cases = rel + ctx.rng.sample(rest, max(0, cap - len(rel)))
     items = replay_cases(ctx, cases, chunkings, ctx.pick(2, 6), ctx.pick(0, 16))
     for it in items[:3]:
         ctx.sample({"case": it[0], "expected": it[1], "run": it[2][0]})
@@ -513,7 +566,8 @@ def selftest(ctx):
     routines = importlib.import_module("dask.array.routines")
     creation = importlib.import_module("dask.array.creation")
     ok = True
-    cases, chunkings = enumerate_cases(ctx, ["roll", "rot90", "tri", "pad", "flip"], "{<<3>>, <<2, 3>>}", 2, "selftest")
+    cases, chunkings = enumerate_cases(ctx, ["roll", "rot90", "tri", "pad", "flip", "shuffle", "take"], "{<<3>>, <<2, 3>>}", 2,
+                                       "selftest", wide="{<<4>>, <<2, 4>>}")
     cases = [c for c in cases if not (c["c"]["op"] == "pad" and
                                       (c["c"]["mode"] not in ("reflect", "edge") or max(max(p) for p in c["c"]["pw"]) > 1))]
     base, sigs = _selftest_replay(cases, chunkings)
@@ -528,11 +582,15 @@ def selftest(ctx):
         ("M3 routines.rot90 (k == 3): flip along axes[1] -> axes[0]  [wrong operand]", routines, "rot90",
          "return flip(transpose(m, axes_list), axes[1])", "return flip(transpose(m, axes_list), axes[0])"),
         ("M4 routines.triu: mask k - 1 -> k  [boundary off by one]", routines, "triu", "k=k - 1,", "k=k,"),
+        ("M5 _shuffle._shuffle: 'already shuffled' shortcut compares only length, first and last of each group  [weakened test]",
+         importlib.import_module("dask.array._shuffle"), "_shuffle", "if idx != list(range(ctr, ctr + c)):",
+         "if len(idx) != c or (c and (idx[0] != ctr or idx[-1] != ctr + c - 1)):"),
     ]
     import dask.array as da
     for title, mod, fn, old, new in mutants:
         with mutant(mod, fn, old, new) as f:
             saved = getattr(da, fn, None)
+            saved = saved if callable(saved) else None       # (da._shuffle is the submodule, not a re-export)
             if saved is not None:
                 setattr(da, fn, f)          # dask.array re-exports the function object
             try:
